@@ -44,6 +44,8 @@ class SpawnExecutor(BlockExecutor):
         if re.search(r"JobBroker::<.*>::(push|clone)$|as Clone>::clone$", f):
             args = [self.read(st, a) for a in t.args["args"]]
             tgt = self._target(st, args[0])
+            if f.endswith("::push"):
+                st.events.append(("broker_push",))
             return ("broker",) if tgt[0] == "broker" else ("opaque", "clone")
         return super().call(st, body, t)
 
@@ -101,6 +103,18 @@ def obligations(name, mir_text, checker_rs):
                     add(f"path {i}: the worker is handed options.{fn} unchanged", ok, g, **({} if ok else {"witness": {"checker": name, "handed": str(env[fn])[:80]}}))
                 if "target_max_depth" not in env:
                     add(f"path {i}: the worker is handed options.target_max_depth unchanged", False, g, witness={"checker": name, "handed": "nothing (not captured)"})
+    for i, o in enumerate(outs):
+        if o.kind == "panic":
+            continue
+        g = z3.And(*o.st.pc) if o.st.pc else z3.BoolVal(True)
+        pushes = sum(1 for e in o.st.events if e[0] == "broker_push")
+        spawned = any(e[0] == "spawn_worker" for e in o.st.events)
+        # a path cut inside a loop that has already pushed once and pushes again, or a complete path
+        # without exactly one push: the initial states do not reach the market as ONE batch
+        if o.kind == "cut":
+            add(f"path {i}: the initial states are pushed to the job market as one batch (no push inside a loop)", pushes <= 1, g)
+        elif spawned or o.kind == "return":
+            add(f"path {i}: the initial states are pushed to the job market as one batch (exactly one push)", pushes == 1, g)
     if n_spawn == 0:
         raise Unsupported(f"{name} spawn: no worker thread creation found on any path")
     info = {"function": body.name, "blocks": len(body.blocks), "loops_havocked": [f"bb{h}" for h in heads], "paths": len(outs), "builder_fields": fields}
